@@ -98,7 +98,7 @@ class _PooledTransport:
     pool-specific attributes (``shm``, ``_stream_opened``).
     """
 
-    __slots__ = ("_inner", "_last_stream_session", "_pool", "_returned", "_shm", "_stream_opened")
+    __slots__ = ("_inner", "_pool", "_returned", "_sessions", "_shm", "_stream_opened")
 
     def __init__(self, inner: SubprocessTransport, pool: WorkerPool, shm: ShmSegment | None = None) -> None:
         """Initialize wrapping *inner* transport, owned by *pool*."""
@@ -107,7 +107,20 @@ class _PooledTransport:
         self._returned = False
         self._shm = shm
         self._stream_opened = False
-        self._last_stream_session: StreamSession | None = None
+        # Every stream session of this borrow, not just the latest: a stream
+        # abandoned earlier leaves the connection mid-conversation even when a
+        # later stream on it was closed properly.
+        self._sessions: list[StreamSession] = []
+
+    @property
+    def _last_stream_session(self) -> StreamSession | None:
+        """The most recent stream session; the client proxy assigns each new session here."""
+        return self._sessions[-1] if self._sessions else None
+
+    @_last_stream_session.setter
+    def _last_stream_session(self, session: StreamSession | None) -> None:
+        if session is not None:
+            self._sessions.append(session)
 
     @property
     def reader(self) -> IOBase:
@@ -137,9 +150,9 @@ class _PooledTransport:
         self._shm = None
         # A stream is "abandoned" if it was opened but not cleanly closed
         stream_abandoned = self._stream_opened and (
-            self._last_stream_session is None or not self._last_stream_session._closed
+            not self._sessions or any(not session._closed for session in self._sessions)
         )
-        self._last_stream_session = None
+        self._sessions = []
         try:
             self._pool._return_worker(self._inner, stream_abandoned)
         except Exception:
